@@ -126,25 +126,23 @@ Definition edge_okb (bases : list str) (e : redge) : bool :=
 
 Definition row_okb (bases : list str) (cr : crow) : bool :=
   edges_agreeb (r_edges (cr_row cr)) &&
-  forallb (edge_okb bases) (r_edges (cr_row cr)) && match cr_uuid cr with [] => true | _ => false end &&
+  forallb (edge_okb bases) (r_edges (cr_row cr)) &&
+  (* the input encoding (harness/rowref.py, comp_corr.py): a given `_nodeId` is the row's node name; it is not the
+     hard-exit marker *)
+  match cr_uuid cr with [] => true | u => str_eqb (r_node_name (cr_row cr)) u && negb (str_eqb u hard_exit_sentinel) end &&
   match r_type (cr_row cr) with
   | TNode cls acts dec0 =>
-    match r_node_name (cr_row cr), cr_uuid cr with
-    | [], [] =>
-      eclass_eqb cls (kind_cls (cr_kind cr)) && rdec_eqb_shallow dec0 (kind_dec0 (cr_kind cr))
-      && match cr_kind cr with
-         | KBasic1 | KBasic2 => Nat.leb (length acts) 1
-         | KWait _ _ | KSplitValue _ _ | KSplitGroup _ | KRandom _ => match acts with [] => true | _ => false end
-         | KEnterFlow _ | KWebhook _ | KAirtime _ => Nat.eqb (length acts) 1
-         end
-    | _, _ => false
-    end
+    eclass_eqb cls (kind_cls (cr_kind cr)) && rdec_eqb_shallow dec0 (kind_dec0 (cr_kind cr))
+    && match cr_kind cr with
+       | KBasic1 | KBasic2 => Nat.leb (length acts) 1
+       | KWait _ _ | KSplitValue _ _ | KSplitGroup _ | KRandom _ => match acts with [] => true | _ => false end
+       | KEnterFlow _ | KWebhook _ | KAirtime _ => Nat.eqb (length acts) 1
+       end
   | _ => true
   end.
 
-(* the sheet starts with a node row (the first node of the flow is the first node allocated) *)
-Definition fragb (rows : list crow) : bool :=
-  forallb (row_okb (sheet_bases rows)) rows && match rows with cr :: _ => match r_type (cr_row cr) with TNode _ _ _ => true | _ => false end | [] => false end.
+(* the executable test of the premises the refinement theorem still has (harness: wire 120 3) *)
+Definition fragb (rows : list crow) : bool := forallb (row_okb (sheet_bases rows)) rows.
 
 (* ---------------------------------------------------------------- names the compiler invents
    A category the sheet does not name gets a name from the compiler: generate_category_name = the arguments,
@@ -301,5 +299,11 @@ Record Sim (phi : list cluster) (sr : st) (sc : cstate) : Prop := {
   (* the decision node of a no_op carries no action *)
   sim_acts : forall g ps k n, nth_error (s_groups sr) g = Some (GNoOp ps (Some k)) -> nth_error (s_nodes sr) k = Some n -> rn_actions n = [];
   sim_rowmap : s_rowmap sr = cs_rowmap sc;
-  sim_stack : s_stack sr = cs_stack sc }.
+  sim_stack : s_stack sr = cs_stack sc;
+  (* node names: the reference maps a name to a node, the compiler to the first node of its cluster *)
+  sim_names : forall nm, nm <> [] ->
+              match alookup (s_names sr) nm with
+              | Some k => exists c, nth_error phi k = Some c /\ alookup (cs_names sc) nm = Some (fst c)
+              | None => alookup (cs_names sc) nm = None
+              end }.
 End Rel.
